@@ -121,8 +121,8 @@ impl Property for C06 {
     }
     fn cases(&self, tier: Tier) -> usize {
         match tier {
-            Tier::Quick => 40_000,
-            Tier::Thorough => 2_000_000,
+            Tier::Quick => 200_000,
+            Tier::Thorough => 5_000_000,
         }
     }
     fn tape_max(&self) -> usize {
